@@ -26,7 +26,7 @@ from puresnmp.api.raw import register_trap_callback
 
 PROP = "C20"
 LEVEL = "fault_enumeration"
-SHARDS = {"quick": 4, "thorough": 16}
+SHARDS = {"quick": 8, "thorough": 16}
 TIME_CAP = {"quick": 55, "thorough": 1500}
 WATCHDOG = {"quick": 900, "thorough": 7200}
 RULE = (
@@ -475,6 +475,18 @@ def bombs(rng, quick):
         msg = ber.enc_community_message(1, b"public", {"type": 0xA2, "request_id": 1700000000, "error_status": 0, "error_index": 0,
                                                           "varbinds": [((1, 3, 6, 1, 4, 1, 9, i), ("null", None)) for i in range(size // 16)]})
         yield "valid-huge", size, msg
+        # the same many-binding message with ONE damaged binding (a SEQUENCE holding only
+        # the name, a NULL name, a name cut short) at the end, in the middle, in front:
+        # whatever error handling looks for the culprit must not re-scan the whole list
+        # per binding
+        n = max(size // 9, 3)
+        good = [ber.enc_varbind((1, 3, 6, 1, i % 100), ("null", None)) for i in range(n)]
+        for bad_name, bad in (("only-name", ber.tlv(0x30, ber.enc_oid((1, 3, 6, 1, 1)))), ("null-name", ber.tlv(0x30, b"\x05\x00\x05\x00")), ("cut-name", ber.tlv(0x30, b"\x06\x03\x2b\x06\x81\x05\x00"))):
+            for where in ("last", "middle", "first"):
+                vbs = list(good)
+                vbs[{"last": -1, "middle": n // 2, "first": 0}[where]] = bad
+                body = ber.enc_integer(1700000000) + ber.enc_integer(0) + ber.enc_integer(0) + ber.tlv(0x30, b"".join(vbs))
+                yield "huge-one-bad-binding-%s-%s" % (bad_name, where), size, ber.tlv(0x30, ber.enc_integer(1) + ber.enc_octets(b"public") + ber.tlv(0xA2, body))
 
 
 def run_case(R, t, kind, pos, data, variant):
@@ -612,17 +624,34 @@ def run(R):
             variants = [("outer", lambda d: d)]
             if getattr(t, "user", None) is not None and t.msg["flags"] & 1:
                 variants.append(("resigned", t.resign))
-            for vname, xf in variants:
+
+            def variant_stream(vname, xf):
                 for kind, pos, data in mutations(t.seed, quick, rng):
                     d2 = xf(data)
                     if d2 is not None:
                         yield t, kind, pos, d2, vname
-            if getattr(t, "plain", None) is not None:
+
+            def inner_stream():
                 for kind, pos, plain in mutations(t.plain, quick, rng):
                     yield t, kind, pos, t.wrap_plain(plain), "inner-reencrypted"
-            if mode in ("get", "trap") and level in ("v2c", "v3-noauth"):
+
+            def bomb_stream():
                 for kind, size, data in bombs(rng, quick):
                     yield t, kind, size, data, "outer"
+
+            # the variants of one target take turns as well (a time cap must not cut the
+            # re-signed / re-encrypted ones off behind the plain ones)
+            subs = [variant_stream(vname, xf) for vname, xf in variants]
+            if getattr(t, "plain", None) is not None:
+                subs.append(inner_stream())
+            if mode in ("get", "trap") and level in ("v2c", "v3-noauth"):
+                subs.append(bomb_stream())
+            while subs:
+                for g in list(subs):
+                    try:
+                        yield next(g)
+                    except StopIteration:
+                        subs.remove(g)
         streams.append(stream())
     # round-robin over the targets, so that a time cap cuts every target evenly
     idx = 0
